@@ -106,20 +106,24 @@ EncChecks3(e, m, sp, total, wr, okk, n, buf, body, wrapExplains) ==
                         /\ buf[9] = sp.type,
           okk, {}),
       IF e.op = "enc_req"
-      THEN Chk("C06", okk => (n >= 12 /\ Len(buf) = n /\ body = sp.rest), okk,
+      THEN Chk("C06", /\ okk => (n >= 12 /\ Len(buf) = n /\ body = sp.rest)
+                      /\ (~sp.refused /\ total <= MaxTotal /\ e.buf_len >= total) => e.res.kind # "err",
+               okk,
                IF e.name = "query_hop" /\ okk /\ n >= 12 /\ Len(buf) = n
                   /\ body = [sp.rest EXCEPT ![2] = 14]
                THEN {"QUERYHOP_CODE"} ELSE {})
       ELSE Skip("C06"),
       IF e.op = "enc_resp"
-      THEN Chk("C07", okk => /\ n >= 13 /\ Len(buf) = n
+      THEN Chk("C07", /\ okk => /\ n >= 13 /\ Len(buf) = n
                              /\ buf[10] \div 32 = 0 /\ buf[11] = RespCmd[e.name] /\ buf[12] = e.args.cc
-                             /\ (e.args.cc = 0 => Tail(body) = Tail(sp.rest)),
+                             /\ (e.args.cc = 0 => Tail(body) = Tail(sp.rest))
+                      /\ (~sp.refused /\ total <= MaxTotal /\ e.buf_len >= total) => e.res.kind # "err",
                okk, {})
       ELSE Skip("C07"),
       IF e.op = "enc_vendor" \/ (e.op = "enc_gen" /\ e.kind # "control")
       THEN Chk("C08", /\ sp.refused => e.res.kind = "err"
-                      /\ okk => (~sp.refused /\ n >= 10 /\ Len(buf) = n /\ buf[9] = sp.type /\ body = sp.rest),
+                      /\ okk => (~sp.refused /\ n >= 10 /\ Len(buf) = n /\ buf[9] = sp.type /\ body = sp.rest)
+                      /\ (~sp.refused /\ total <= MaxTotal /\ e.buf_len >= total) => e.res.kind # "err",
                TRUE, {})
       ELSE Skip("C08"),
       Chk("C16",
@@ -238,7 +242,16 @@ ProcessChecks3(e, m, p, r, dc, R, n, pecok, acc, xdevs, panicked) ==
       IF ~panicked /\ acc /\ Cmd(p) \in 3..5 /\ Len(p) <= 255
       THEN Chk("C15", r.kind = "ok" /\ n >= 13 /\ Len(R) = n /\ SubSeq(R, 12, n - 1) = AnswerBody(p, m, 0), TRUE, {})
       ELSE Skip("C15"),
-      IF IsPair(p) /\ ~panicked THEN Chk("C01", PairHolds(p, r), TRUE, xdevs \cup DecDevs(p, r, pecok)) ELSE Skip("C01") }
+      IF IsPair(p) /\ ~panicked THEN Chk("C01", PairHolds(p, r), TRUE, xdevs \cup DecDevs(p, r, pecok)) ELSE Skip("C01"),
+      (* a response written by the processor is a packet the library encodes: C03-C05 bind it too *)
+      IF ~panicked /\ n >= 0 /\ acc
+      THEN Chk("C03", Len(R) = n /\ n >= 1 /\ PecGood(R), TRUE, {}) ELSE Skip("C03"),
+      IF ~panicked /\ n >= 0 /\ acc /\ p[7] < 128 /\ m.addr < 128
+      THEN Chk("C04", Len(R) = n /\ n >= 4 /\ R[1] = p[7] * 2 /\ R[2] = 15 /\ R[3] = n - 4 /\ R[4] = m.addr * 2 + 1,
+               TRUE, {}) ELSE Skip("C04"),
+      IF ~panicked /\ n >= 0 /\ acc
+      THEN Chk("C05", Len(R) = n /\ n >= 10 /\ R[5] = 1 /\ R[6] = p[7] /\ R[7] = m.addr /\ R[8] \div 16 = 12
+                      /\ R[9] = MT_CONTROL, TRUE, {}) ELSE Skip("C05") }
 
 XDevs(e, x) == IF AsIsSame(e, e.res, e.rbuf, e.res.resp_len, x) THEN x.dev ELSE {}
 ProcessChecks2(e, m, pecok, x) ==
